@@ -67,8 +67,11 @@ theorem infeasible_is_inf (p : SepPen ℝ) (wt w grad : ℝ) (hp : p.positive = 
   cases p <;> simp only [SepPen.positive] at hp <;> cases hp
   all_goals simp [SepPen.sd1, eqb_iff, hw, hne, hnp]
 
-/-- features flagged as unpenalised contribute nothing to the value -/
-theorem unpenalized_contributes_nothing (p : SepPen ℝ) (wt w : ℝ) (h : p.isPen1 wt = false) :
+/-- features flagged as unpenalised contribute nothing to the value, at points satisfying the
+    configured positivity constraint (`hfeas`; since `value()` returns `inf` at points violating
+    `positive=True`, the statement is false without it: `wl1 a true`, `wt = 0`, `w = -1`) -/
+theorem unpenalized_contributes_nothing (p : SepPen ℝ) (wt w : ℝ) (h : p.isPen1 wt = false)
+    (hfeas : ¬ (p.positive = true ∧ w < 0)) :
     p.pen1 wt w = .fin 0 := by
   cases p <;> simp only [SepPen.isPen1] at h <;> first | cases h | skip
   have hwt : wt = 0 := by
@@ -76,8 +79,11 @@ theorem unpenalized_contributes_nothing (p : SepPen ℝ) (wt w : ℝ) (h : p.isP
     rw [(nz_iff wt).2 hne] at h
     cases h
   subst hwt
-  simp only [SepPen.pen1]
+  unfold SepPen.pen1
+  rw [if_neg hfeas]
+  show Ext.fin _ = Ext.fin 0
   congr 1
+  show _ * (_ * (0:ℝ)) = 0
   ring
 
 end Skglm.C08
